@@ -15,6 +15,27 @@ fn sub(src: &Ontology, root: u32, leaves: &[u32]) -> Result<Result<Ontology, Str
     guard(|| src.sub_ontology(src.hpo(root).unwrap(), leaves.iter().map(|l| src.hpo(*l).unwrap()).collect::<Vec<_>>()).map_err(|e| e.to_string()))
 }
 
+/// `own.sub_ontology` called with root / leaf handles taken from `other` (same terms and links): the result
+/// must be the one obtained with `own`'s handles.
+pub fn foreign_handles(ctx: &mut Ctx, own: &Ontology, other: &Ontology, f: &Facts, root: u32, leaves: &[u32], what: &str) {
+    ctx.exec();
+    ctx.validated();
+    ctx.transitions(2);
+    let a = sub(own, root, leaves);
+    let b = guard(|| own.sub_ontology(other.hpo(root).unwrap(), leaves.iter().map(|l| other.hpo(*l).unwrap()).collect::<Vec<_>>()).map_err(|e| e.to_string()));
+    let same = match (&a, &b) {
+        (Ok(Ok(x)), Ok(Ok(y))) => match (Obs::of(x), Obs::of(y)) {
+            (Ok(ox), Ok(oy)) => oy.diff(&ox, true).map(|d| format!("{} {} {}", d.0, d.1, d.2)),
+            _ => Some("the result cannot be walked".to_string()),
+        },
+        (Ok(Err(_)), Ok(Err(_))) => None,
+        _ => Some(format!("own handles: {:?}; foreign handles: {:?}", a.as_ref().map(|r| r.as_ref().map(|_| ())), b.as_ref().map(|r| r.as_ref().map(|_| ())))),
+    };
+    if let Some(d) = same {
+        ctx.violation("Ontology::sub_ontology", "result depends on which Ontology instance the root / leaf handles were taken from", json!({"family": what, "source": f.to_json(), "root": root, "leaves": leaves, "handles_from": "an instance with the same terms and links but no records", "difference": d}));
+    }
+}
+
 #[allow(clippy::too_many_arguments)]
 pub fn check_one(ctx: &mut Ctx, src: &Ontology, r: &RefOnt, mode: Mode, up: &BTreeMap<u32, BTreeMap<u32, usize>>, root: u32, leaves: &[u32], case: &dyn Fn() -> Value, custom_roots: Option<&BTreeSet<u32>>) {
     let is_mod = |t: u32| -> bool {
@@ -258,6 +279,42 @@ pub fn run(ctx: &mut Ctx) {
                 for leaves in &collections {
                     let case = || json!({"family": what, "source": f.to_json(), "source_constructor": path, "root": root, "leaves": leaves});
                     check_one(ctx, src, &r, *mode, &up, root, leaves, &case, None);
+                }
+            }
+        }
+        // root and leaves named through handles of ANOTHER Ontology instance (the same terms and links, no
+        // records at all): a sub-ontology is cut out of the ontology the method is called on - the handles
+        // only say which terms are meant
+        if !has_flag && idx % 4 == 2 {
+            let mut skeleton = f.clone();
+            skeleton.anns.clear();
+            if let (Ok(own), Ok(other)) = (drive::build(f, Mode::Minimal), drive::build(&skeleton, Mode::Minimal)) {
+                for &root in &ids {
+                    for leaves in collections.iter().filter(|l| l.len() <= 2) {
+                        foreign_handles(ctx, &own, &other, f, root, leaves, what);
+                    }
+                }
+            }
+        }
+        // the same source with term names beyond 255 bytes (only the Builder and the text loader can carry them;
+        // sub_ontology copies names, it does not re-encode them): single leaves
+        if !has_flag && idx % 4 == 0 {
+            let mut fl = f.clone();
+            for (i, t) in fl.terms.iter_mut().enumerate() {
+                t.name = match i % 4 {
+                    0 => "a".repeat(256),
+                    1 => "\u{e9}".repeat(150),
+                    2 => format!("{}\u{20ac}", "b".repeat(254)),
+                    _ => "c".repeat(1000),
+                };
+            }
+            let rl = RefOnt::derive(&fl);
+            if let Ok(o) = drive::build(&fl, Mode::Minimal) {
+                for &root in &ids {
+                    for leaves in collections.iter().filter(|l| l.len() == 1) {
+                        let case = || json!({"family": what, "source": f.to_json(), "source_constructor": "Builder::build_minimal, term names of 256 / 300 / 257 / 1000 bytes", "root": root, "leaves": leaves});
+                        check_one(ctx, &o, &rl, Mode::Minimal, &up, root, leaves, &case, None);
+                    }
                 }
             }
         }
